@@ -507,6 +507,27 @@ def cases(rng, tier="quick"):
     return out
 
 
+# ------------------------------------------------------------------ concurrent decodes against the (sequential) model
+
+def concurrent_cases(rng, tier="quick", threads=8, flavour="plain"):
+    """Edgebreaker encode+decode calls executed by `threads` harness threads at the same time (VH_THREADS); every
+    result has to equal the model's decode of the same bytes.  Speed 0/1 on meshes of >= 40 points selects the
+    constrained multi-parallelogram scheme, whose decoder keeps per-call scratch arrays."""
+    out = []
+    for r in range(2 if tier == "quick" else 6):
+        for k in range(2 * threads):
+            w = rng.randint(24, 36)
+            g = build(rng, grid(rng, w, rng.randint(24, 36)), [("generic", "vertex")] if k % 2 else [])
+            toks, info = options(rng, g, speed=rng.choice([0, 1]), submethod=rng.choice([0, 2]))
+            c = make(g, toks, info, ("concurrent", f"threads:{threads}"), checks={"corr", "valid", "consumed"})
+            c.flavour = flavour
+            c.env = {"VH_THREADS": str(threads)}
+            c.group = 7000 + r
+            c.note = f"eb-{threads}-threads"
+            out.append(c)
+    return out
+
+
 # ------------------------------------------------------------------ corrupted streams
 
 def seed_streams(rng, n=12):
@@ -528,6 +549,36 @@ def seed_streams(rng, n=12):
     import shutil
     shutil.rmtree(wd, ignore_errors=True)
     return [o.split()[1] for o in outs if o.startswith("ok ")]
+
+
+def _same_up_to_nan(hout, mout):
+    """equal decode results where float32 values that are NaN on both sides may differ in sign / payload
+    (the dequantizer propagates NaN payloads of corrupted parameters; the Lean driver prints the canonical NaN)"""
+    ht, mt = hout.split(), mout.split()
+    if len(ht) != len(mt) or ht[:1] != ["ok"] or mt[:1] != ["ok"]:
+        return False
+    try:
+        gh, _ = G.parse_geom(ht, 2)
+        gm, _ = G.parse_geom(mt, 2)
+    except Exception:
+        return False
+    if gh.num_points != gm.num_points or gh.faces != gm.faces or len(gh.atts) != len(gm.atts) or ht[1] != mt[1]:
+        return False
+    for a, b in zip(gh.atts, gm.atts):
+        if (a.att_type, a.dtype, a.ncomp, a.normalized, a.uid, a.num_values, a.map, a.transform) != \
+           (b.att_type, b.dtype, b.ncomp, b.normalized, b.uid, b.num_values, b.map, b.transform):
+            return False
+        if a.values == b.values:
+            continue
+        if a.dtype != DT["f32"] or len(a.values) != len(b.values):
+            return False
+        for i in range(0, len(a.values) - 3, 4):
+            x, y = a.values[i:i + 4], b.values[i:i + 4]
+            if x != y:
+                fx, fy = struct.unpack("<f", x)[0], struct.unpack("<f", y)[0]
+                if not (fx != fx and fy != fy):
+                    return False
+    return True
 
 
 def corrupt_cases(rng, streams, per_stream=40, flavour="asan"):
@@ -556,7 +607,7 @@ def corrupt_cases(rng, streams, per_stream=40, flavour="asan"):
                     return None
                 if hout.startswith("CRASH"):
                     return None   # reported by the engine as an implementation crash
-                if hout != mout:
+                if hout != mout and not _same_up_to_nan(hout, mout):
                     return f"corrupted stream: implementation `{hout[:200]}` model `{mout[:200]}` for `{case.op[:200]}`"
                 return None
 
